@@ -68,6 +68,9 @@ MUST_ACCEPT = [
     (JLS, 'uint8', 8, 8, None, 'MONOCHROME2', 0, None, (16, 16)),
     (JLS, 'uint16', 16, 16, None, 'MONOCHROME2', 0, None, (16, 16)),
     (JLS, 'uint8', 8, 8, 3, 'RGB', 0, 0, (16, 16)),
+] + [
+    # a mask held in bool cells with 8 bits allocated and k bits stored (0 / 1 fit every k >= 1): native cells of one byte
+    (ts_, 'bool', 8, k_, None, 'MONOCHROME2', 0, None, (3, 5)) for ts_ in (EXPLICIT, IMPLICIT) for k_ in range(1, 9)
 ]
 
 
@@ -152,16 +155,45 @@ def _classify_exception(e):
     return 'codec'
 
 
-def _encode(a, ts, ba, bs, pi, pr, pc):
+# SPELLING of the enum-valued arguments (photometric_interpretation, pixel_representation, planar_configuration): each is
+# documented as "enum member or its value"; 'r' = the raw value (str / int), 'm' = the enum member.  A generator
+# dimension of its own (guide 3a): the translated tree sees values only, so a comparison made before the argument is
+# normalised (`pixel_representation == 1` on a member) is visible to the oracle / L0 only if members are drawn.
+SPELLS = ['rrr', 'mmm', 'rmr', 'mrr', 'rrm', 'mmr', 'rmm', 'mrm']
+
+
+def _spelled(pi, pr, pc, spell):
+    from highdicom.enum import PhotometricInterpretationValues, PixelRepresentationValues, PlanarConfigurationValues
+    out = []
+    for v, s, cls in ((pi, spell[0], PhotometricInterpretationValues), (pr, spell[1], PixelRepresentationValues),
+                      (pc, spell[2], PlanarConfigurationValues)):
+        if s == 'm' and v is not None:
+            try:
+                v = cls(v)
+            except ValueError:
+                pass            # not a value of the enum: stays raw (must be refused either way)
+        out.append(v)
+    return tuple(out)
+
+
+def _next_spell(ctx):
+    k = getattr(ctx, '_c07_spell', 0)
+    ctx._c07_spell = k + 1
+    return SPELLS[(k + ctx.seed) % len(SPELLS)]
+
+
+def _encode(a, ts, ba, bs, pi, pr, pc, spell='rrr'):
     from highdicom.frame import encode_frame
+    pi, pr, pc = _spelled(pi, pr, pc, spell)
     try:
         return ('ok', encode_frame(a, ts, ba, bs, pi, pr, pc))
     except Exception as e:  # noqa: BLE001
         return (_classify_exception(e), f'{type(e).__name__}: {str(e)[:100]}')
 
 
-def _decode(b, ts, rows, cols, samples, ba, bs, pi, pr, pc):
+def _decode(b, ts, rows, cols, samples, ba, bs, pi, pr, pc, spell='rrr'):
     from highdicom.frame import decode_frame
+    pi, pr, pc = _spelled(pi, pr, pc, spell)
     try:
         return ('ok', decode_frame(b, ts, rows, cols, samples, ba, bs, pi, pr, pc))
     except Exception as e:  # noqa: BLE001
@@ -281,10 +313,13 @@ class _Capped:
         self.ctx.fail(case, detail, site=site)
 
 
-def _check(ctx, kind, ts, dtype, ba, bs, samples, pi, pr, pc, a, reqs, pending, layout='c', must_accept=False):
+def _check(ctx, kind, ts, dtype, ba, bs, samples, pi, pr, pc, a, reqs, pending, layout='c', must_accept=False, spell=None):
+    if spell is None:
+        spell = _next_spell(ctx)
     ctx = _Capped(ctx)
     case = _case(kind, ts, dtype, ba, bs, samples, pi, pr, pc, a, layout)
-    st, val = _encode(a, ts, ba, bs, pi, pr, pc)
+    case['spell'] = spell
+    st, val = _encode(a, ts, ba, bs, pi, pr, pc, spell)
     spp = a.shape[2] if a.ndim > 2 else 1
     rows, cols = a.shape[0], a.shape[1]
     outcome = 'accepted' if st == 'ok' else ('refused' if st == 'validation' else 'codec-refused')
@@ -293,7 +328,7 @@ def _check(ctx, kind, ts, dtype, ba, bs, samples, pi, pr, pc, a, reqs, pending, 
     if st == 'ok' and a.size > 1 and a.min() != a.max():
         nontriv = (ts, dtype, ba, bs, samples, pi, (rows * cols) % 8, layout)
     ctx.case(sample=case if (st == 'ok' and ctx.evaluations % 211 == 0) else None, nontrivial_key=nontriv,
-             syntax=TSNAME.get(ts, ts), outcome=outcome, kind=kind, dtype=dtype, bits=f'{ba}/{bs}',
+             syntax=TSNAME.get(ts, ts), outcome=outcome, kind=kind, dtype=dtype, bits=f'{ba}/{bs}', spelling=spell,
              **({'layout': layout} if kind == 'frame' else {}))
     if st != 'ok':
         ctx.hist('refusal', (TSNAME.get(ts, ts), val.split(':')[0], st))
@@ -310,7 +345,7 @@ def _check(ctx, kind, ts, dtype, ba, bs, samples, pi, pr, pc, a, reqs, pending, 
         if not fits:
             ctx.hist('content', 'a sample outside bits_stored was accepted')
         if True:
-            st2, dec = _decode(val, ts, rows, cols, spp, ba, bs, pi, pr, pc)
+            st2, dec = _decode(val, ts, rows, cols, spp, ba, bs, pi, pr, pc, spell)
             shape_free = (a.ndim == 3 and a.shape[2] == 1)
             if st2 != 'ok':
                 ctx.fail(case, f'accepted, but decode_frame with the same parameters fails: {dec}', site='roundtrip')
@@ -413,6 +448,14 @@ def _cells(ctx, reqs, pending):
             a = _mk_array(ctx.np_rng('side-unaligned', side), dt, shp, ba, bs, pr)
             _check(ctx, 'side-unaligned', ts, dt, ba, bs, None, 'MONOCHROME2', pr, None, a, reqs, pending)
             side += 1
+    # masks held in bool cells with 8 / k and 16 / k bits (allocated / stored): refused, or exact round trip
+    for ts in (IMPLICIT, EXPLICIT, RLE, JLS):
+        for ba, ks in ((8, range(1, 9)), (16, (1, 7, 8, 9, 15, 16))):
+            for k_ in ks:
+                shp = (16, 16) if ts == JLS else (3, 5)
+                a = ctx.np_rng('side-boolcells', side).random(shp) < 0.5
+                _check(ctx, 'side-boolcells', ts, 'bool', ba, k_, None, 'MONOCHROME2', 0, None, a, reqs, pending)
+                side += 1
     # JPEG 2000 needs 32x32; 1-bit branch looks at dtype and max
     for ts, dt, ba, pi, pc, s in [(J2KL, 'uint8', 8, 'MONOCHROME2', None, None), (J2KL, 'bool', 1, 'MONOCHROME2', None, None),
                                   (J2KL, 'uint8', 1, 'MONOCHROME2', None, None), (J2K, 'uint8', 8, 'YBR_ICT', 0, 3),
@@ -430,7 +473,8 @@ def _must_accept(ctx, reqs, pending):
     for i, (ts, dt, ba, bs, s, pi, pr, pc, shp) in enumerate(MUST_ACCEPT):
         shape = shp if s is None else shp + (s,)
         a = _mk_array(ctx.np_rng('must', i), dt, shape, ba, bs, pr)
-        _check(ctx, 'must', ts, dt, ba, bs, s, pi, pr, pc, a, reqs, pending, must_accept=True)
+        for spell in SPELLS:
+            _check(ctx, 'must', ts, dt, ba, bs, s, pi, pr, pc, a, reqs, pending, must_accept=True, spell=spell)
 
 
 def _frames(ctx, reqs, pending):
@@ -499,14 +543,17 @@ def _decode_routes(ctx, reqs, pending):
                                                    [0, 1, 2], [None, 0, 1, 2]):
         n = 8 * s
         payload = bytes(n * max(1, ba // 8))
+        spell = SPELLS[(k + ctx.seed) % len(SPELLS)]
+        pi_s, pr_s, pc_s = _spelled(pi, pr, pc, spell)
         try:
-            decode_frame(payload, ts, 2, 4, s, ba, ba, pi, pr, pc)
+            decode_frame(payload, ts, 2, 4, s, ba, ba, pi_s, pr_s, pc_s)
             st = 'ok'
         except Exception as e:  # noqa: BLE001
             st = _classify_exception(e)
         reqs.append(('decodeRouteRaw', {'enc': bool(UID(ts).is_encapsulated), 'ba': ba, 'samples': s, 'pi': pi, 'pr': pr,
                                         'planar': pc}))
-        pending.append(({'kind': 'decode-route', 'ts': ts, 'ba': ba, 'samples': s, 'pi': pi, 'pr': pr, 'pc': pc}, 'route', st))
+        pending.append(({'kind': 'decode-route', 'ts': ts, 'ba': ba, 'samples': s, 'pi': pi, 'pr': pr, 'pc': pc, 'spell': spell},
+                        'route', st))
         ctx.case(kind='decode-route', outcome=st)
         k += 1
     ctx.exhaustive.append(f'decode_frame parameter checks on {k} cells')
@@ -555,7 +602,8 @@ def replay(ctx, case):
     sub = type(ctx)(ctx.prop, ctx.tier, ctx.seed, 1, ctx.driver)
     a = _array_of_case(case)
     _check(sub, case.get('kind', 'frame'), case['ts'], case['dtype'], case['ba'], case['bs'], case['samples'], case['pi'],
-           case['pr'], case['pc'], a, [], [], layout=case.get('layout', 'c'), must_accept=case.get('kind') == 'must')
+           case['pr'], case['pc'], a, [], [], layout=case.get('layout', 'c'), must_accept=case.get('kind') == 'must',
+           spell=case.get('spell', 'rrr'))
     return sub.failures[:3] or None
 
 
